@@ -26,6 +26,7 @@ class Acc:
         self.viols = []
         self.notes = []
         self.jobs = []
+        self.exists = {}       # job -> mask of existential facts reached by some execution
         self.incomplete = []   # names of bounds that were not completed (deadline / cap)
 
     def add_stat(self, k, v):
@@ -54,6 +55,8 @@ class Acc:
             elif t == "viol":
                 o["job"] = job
                 self.viols.append(o)
+            elif t == "exists":
+                self.exists[job] = self.exists.get(job, 0) | int(o.get("mask", 0))
             elif t == "incomplete":
                 self.incomplete.append("[%s] %s" % (job, o.get("s", "")))
 
